@@ -344,8 +344,10 @@ class Polygon(Shape2D):
         diag_sums = areas[:, np.newaxis] * (verts_sq + prod + sv_sq)
         i_y, i_x, _ = np.abs(np.sum(diag_sums, axis=0) / 12)
 
+        # The product of inertia is signed, so instead of an absolute value
+        # the orientation of the vertices (sign of the shoelace sum) is removed.
         xy_sums = areas * (xi_yip1 + 2 * (xi_yi + xip1_yip1) + xip1_yi)
-        i_xy = np.abs(np.sum(xy_sums) / 24)
+        i_xy = np.sign(np.sum(areas)) * np.sum(xy_sums) / 24
 
         return i_x, i_y, i_xy
 
@@ -366,24 +368,28 @@ class Polygon(Shape2D):
         # axis theorem can be applied in the reverse direction (rotating about
         # the origin before translating to the actual centroid).
         original_center = self.center.copy()
-        original_vertices = self._vertices.copy()
-        original_normal = self._normal.copy()
+        original_vertices = self._vertices
+        original_normal = self._normal
 
-        self.center = (0, 0, 0)
         mat, _ = rowan.mapping.kabsch(
             [self.normal, -self.normal], [[0, 0, 1], [0, 0, -1]]
         )
-        self._vertices = self._vertices.dot(mat.T)
-        self._normal = np.asarray([0, 0, 1])
+        try:
+            # Work on a translated and rotated copy: the array handed out by
+            # ``vertices`` must not be modified, not even temporarily.
+            self._vertices = (self._vertices - original_center).dot(mat.T)
+            self._normal = np.asarray([0, 0, 1])
 
-        inertia_tensor = np.diag([0, 0, self.polar_moment_inertia])
-        shifted_inertia_tensor = translate_inertia_tensor(
-            original_center, rotate_order2_tensor(mat, inertia_tensor), self.area
-        )
-
-        self.center = original_center
-        self._vertices = original_vertices
-        self._normal = original_normal
+            inertia_tensor = np.diag([0, 0, self.polar_moment_inertia])
+            # ``mat`` maps the normal onto z, so its transpose rotates back.
+            shifted_inertia_tensor = translate_inertia_tensor(
+                original_center,
+                rotate_order2_tensor(mat.T, inertia_tensor),
+                self.area,
+            )
+        finally:
+            self._vertices = original_vertices
+            self._normal = original_normal
 
         return shifted_inertia_tensor
 
@@ -403,7 +409,9 @@ class Polygon(Shape2D):
         c_x = np.sum((verts[:, 0] + verts_shifted[:, 0]) * delta_term)
         c_y = np.sum((verts[:, 1] + verts_shifted[:, 1]) * delta_term)
 
-        in_plane_centroid = np.array([c_x, c_y, 0]) / (6 * self.area)
+        # The shoelace terms carry the orientation of the vertices about the
+        # normal, so they must be divided by the signed area.
+        in_plane_centroid = np.array([c_x, c_y, 0]) / (6 * self.signed_area)
 
         # We've rotated into the plane, so the z position of all vertices
         # should be equal. We take the average to improve numerical stablity.
